@@ -84,6 +84,49 @@ snapshot taken before its first use:
       equal objects, and no object changed (state kept elsewhere, e.g. per
       list object)
 A violation that the repeated, history-free build shows too keeps its key.
+
+Default VALUES at the edges of a slot and hostile parameter NAMES (all
+shards) - the class "the statement quantifies over signatures, and a
+signature is also WHICH numbers and WHICH identifiers": the generator used to
+draw defaults from two dozen tame numbers and to call every parameter p<k>,
+so a build that looks at the value or at the spelling of a name was never
+contradicted.
+  values   14 % of all scalar defaults, tuple items, shared tuples, variant
+           values (and some spec defaults) are +-inf, -0.0, +-FLT_MAX, huge
+           and tiny floats, float32 denormals, numbers that round to a signed
+           zero, ints beyond 2**24 .. 2**127, float32-inexact floats, bools
+           inside tuples, rarely NaN.  A slot is a float32: it must hold the
+           float32 nearest to the declared number BIT FOR BIT (sign of zero
+           included) in the parameter array and in every variant block.  NaN:
+           the documentation is silent, three fates are accepted (held,
+           replaced like an invalid default, signature refused; see
+           vf/model_controls.py).  When every wrong slot of a definition
+           belongs to one of these value classes the key says which:
+           C04/default-value/<rate>/<class>-default-not-held,
+           C04/variants/values/<class>-not-held.
+  names    45 % of the programs (and 30 % of the sessions, whose programs
+           then give their k-th parameter the same name) draw 50-100 % of
+           their parameter names - prepended parameters too - from a hostile
+           pool: sclang's rate
+           prefixes a_ i_ t_ (and k_), near misses (a, _a_x, A_x, ar_in, x_tr),
+           the rate names themselves (ar kr ir tr audio control ...), names of
+           library attributes / arguments / builtins (name, rates, index,
+           _controls, self, target, len ...), dunder-like names, names
+           differing only in case, names of 100-255 characters (255 = the
+           longest a definition file can hold), names whose sorted order is
+           not their declaration order, and (3 %, 'sig' shards) non-ASCII
+           identifiers.  The model never reads a name, so any influence of a
+           name on rate, lag, slot, order or value is refuted by the ordinary
+           monitors; a failing case (program or session, whatever its other
+           features) is then decided once more with neutral names (q0, q1,
+           ...; equal names stay equal), and of the violations the renamed
+           case does not show the most telling one is reported as
+           C04/parameter-name-influences-layout/<what> (name_context()).
+           Controls named self / target / add_action / register are only set
+           positionally (keywords of SynthDef.__call__ itself).  Non-ASCII
+           names cannot be written into a definition file (ASCII pstrings):
+           when the writer refuses them the python-side state
+           (_all_control_names, _controls) is compared with the model instead.
 """
 
 from vf.common import iter_cases, case_rng, h64, split, short_tb, tb_sites
@@ -96,7 +139,13 @@ RULE = ("seeded random programs: 0-40 parameters over 1-4 functions (wrap "
         "than the parameters with None / lag numbers / rate names / lag lists, "
         "number / tuple (1-5, sometimes 17-21 values) / None / missing "
         "defaults, prepend 0-2 per function, metadata specs, 0-3 variants, one "
-        "call with 0-6 positional and 0-4 keyword arguments; 20 % with a wrap "
+        "call with 0-6 positional and 0-4 keyword arguments; 14 % of the "
+        "default / variant values at the edges of a float32 slot (+-inf, "
+        "-0.0, FLT_MAX, denormals, ints > 2**24, inexact floats, rarely NaN), "
+        "45 % of the programs with parameter names from a hostile pool "
+        "(sclang prefixes a_ i_ t_ k_, rate names, library attributes, "
+        "dunder-like, case variants, 100-255 characters, non-ASCII); 20 % "
+        "with a wrap "
         "rejected for its signature and recovered, 18 % with 1-2 wrapped "
         "functions whose body raises after their controls exist (user / "
         "library exception, handled 0-3 wrap levels up, fallback or retry, "
@@ -133,6 +182,15 @@ ASSUMPTIONS = [
     "positional arguments of SynthDef.__call__ name the controls of the "
     "definition's own function in declaration order (prepended parameters "
     "are not controls)",
+    "a control slot holds the float32 nearest to the declared number, bit "
+    "for bit; numbers beyond the float32 range are outside the domain; a "
+    "NaN default may be held, replaced like an invalid default or refused "
+    "(documentation silent); every other float, +-inf included, is a valid "
+    "default",
+    "parameter names are arbitrary python identifiers of at most 255 ASCII "
+    "characters (definition file pstrings); non-ASCII identifiers may be "
+    "refused by the writer (then only the python-side state is compared); "
+    "names never carry rate information in this port",
 ]
 MIN_COUNTERS = {
     'quick': {'programs_decoded': 1200, 'sinks_checked': 5000,
@@ -160,7 +218,29 @@ MIN_COUNTERS = {
               'shared_rates_lists_used_several_times_in_one_build': 300,
               'shared_rates_lists_used_by_constructor_and_wrap': 350,
               'shared_prepend_lists': 120, 'shared_variants_dicts': 250,
-              'shared_metadata_dicts': 250, 'shared_default_tuples': 250},
+              'shared_metadata_dicts': 250, 'shared_default_tuples': 250,
+              'edge_default_slots_checked': 4000,
+              'edge_defaults/infinity': 600,
+              'edge_defaults/infinity/in-tuple': 200,
+              'edge_defaults/negative-zero': 250,
+              'edge_defaults/int-beyond-2^24': 500,
+              'edge_defaults/huge': 300, 'edge_defaults/tiny': 400,
+              'edge_defaults/bool': 300, 'edge_defaults/nan': 20,
+              'edge_variant_values_checked': 150,
+              'programs_with_hostile_names': 1500,
+              'controls_named/sclang-prefix': 5000,
+              'controls_named/near-prefix': 2000,
+              'controls_named/rate-name': 2000,
+              'controls_named/library-attribute': 3000,
+              'controls_named/dunder-like': 1200,
+              'controls_named/case-variant': 1000,
+              'controls_named/very-long': 800,
+              'controls_named/order-confusing': 1000,
+              'prefix_named_controls_without_annotation_or_rate': 2500,
+              'prefix_named_controls_with_lag': 300,
+              'prefix_named_controls_in_wrapped_functions': 500,
+              'definitions_with_names_differing_only_in_case': 100,
+              'unicode_named_programs': 30},
     'thorough': {'programs_decoded': 60000, 'sinks_checked': 300000,
                  'name_entries_checked': 300000, 'lag_inputs_checked': 30000,
                  'variant_blocks_checked': 10000, 'calls_checked': 50000,
@@ -187,7 +267,29 @@ MIN_COUNTERS = {
                  'shared_rates_lists_used_several_times_in_one_build': 6000,
                  'shared_rates_lists_used_by_constructor_and_wrap': 7000,
                  'shared_prepend_lists': 2500, 'shared_variants_dicts': 5000,
-                 'shared_metadata_dicts': 5000, 'shared_default_tuples': 5000},
+                 'shared_metadata_dicts': 5000, 'shared_default_tuples': 5000,
+                 'edge_default_slots_checked': 80000,
+                 'edge_defaults/infinity': 12000,
+                 'edge_defaults/infinity/in-tuple': 4000,
+                 'edge_defaults/negative-zero': 5000,
+                 'edge_defaults/int-beyond-2^24': 10000,
+                 'edge_defaults/huge': 6000, 'edge_defaults/tiny': 8000,
+                 'edge_defaults/bool': 6000, 'edge_defaults/nan': 400,
+                 'edge_variant_values_checked': 3000,
+                 'programs_with_hostile_names': 30000,
+                 'controls_named/sclang-prefix': 60000,
+                 'controls_named/near-prefix': 25000,
+                 'controls_named/rate-name': 25000,
+                 'controls_named/library-attribute': 40000,
+                 'controls_named/dunder-like': 15000,
+                 'controls_named/case-variant': 12000,
+                 'controls_named/very-long': 10000,
+                 'controls_named/order-confusing': 12000,
+                 'prefix_named_controls_without_annotation_or_rate': 30000,
+                 'prefix_named_controls_with_lag': 6000,
+                 'prefix_named_controls_in_wrapped_functions': 10000,
+                 'definitions_with_names_differing_only_in_case': 2000,
+                 'unicode_named_programs': 400},
 }
 
 
@@ -329,7 +431,60 @@ def cleanly_rejected(viols):
         for t in ('ValueError', 'TypeError') for site in ARGS_SITES)
 
 
+def has_nan(prog):
+    """a NaN default (scalar or tuple item): the build may refuse it"""
+    return any(p['default'][0] in ('num', 'tuple') and any(
+        G.is_nan(v) for v in (p['default'][1] if p['default'][0] == 'tuple'
+                              else [p['default'][1]]))
+        for f in prog['funcs'].values() for p in f['params'])
+
+
+def name_context(acc, viols, hostile, rerun_neutral):
+    """Does the SPELLING of the parameter names matter?  A case with hostile
+    names that shows violations is decided once more with neutral names (q0,
+    q1, ...; equal names stay equal): a key the renamed case shows too is
+    reported as it is, of the others the most telling one is reported as
+    C04/parameter-name-influences-layout/<what>."""
+    if not viols:
+        return
+    if not hostile:
+        for key, wit in viols:
+            acc.violation(key, wit)
+        return
+    c2 = Collector(acc, True)
+    rerun_neutral(c2)
+    plain = {k for k, _ in c2.viols}
+    traced = False
+    for key, wit in sorted(viols, key=lambda kw: fb_rank(kw[0])):
+        if key in plain:
+            acc.violation(key, wit)          # wrong with neutral names too
+        elif not traced:
+            traced = True
+            wit = dict(wit)
+            wit['key_without_context'] = key
+            wit['all_keys'] = sorted({k for k, _ in viols})
+            wit['keys_with_neutral_names'] = sorted(plain)
+            acc.violation('C04/parameter-name-influences-layout/'
+                          + fb_class(key), wit)
+
+
 def run_case(acc, H, i, prog):
+    c = Collector(acc, False)
+    decide_case(c, H, i, prog)
+    name_context(acc, c.viols, prog.get('hostile_names'),
+                 lambda c2: decide_case(c2, H, i, G.with_neutral_names(prog)))
+
+
+def run_session(acc, H, i, sess):
+    c = Collector(acc, False)
+    decide_session(c, H, i, sess)
+    name_context(acc, c.viols,
+                 any(p.get('hostile_names') for p in sess['programs']),
+                 lambda c2: decide_session(
+                     c2, H, i, G.session_with_neutral_names(sess)))
+
+
+def decide_case(acc, H, i, prog):
     """Programs with a 'special' feature are decided twice: by the model and
     differentially against a variant of the program without the feature; a
     violation the variant does not show gets the feature's mechanism key.
@@ -347,7 +502,8 @@ def run_case(acc, H, i, prog):
     b = eval_prog(c, H, i, prog)
     has_invalid = any(p['default'][0] == 'invalid'
                       for f in prog['funcs'].values() for p in f['params'])
-    if (special == 'empty' or has_invalid) and cleanly_rejected(c.viols):
+    if (special == 'empty' or has_invalid or has_nan(prog)) \
+            and cleanly_rejected(c.viols):
         acc.count('odd_default_rejected_no_verdict')
         return
     if has_invalid:
@@ -576,7 +732,7 @@ def session_use_counters(acc, progs, shared):
                       len(us))
 
 
-def run_session(acc, H, i, sess):
+def decide_session(acc, H, i, sess):
     """Builds of DIFFERENT signatures that are handed the SAME argument
     objects.  Every build is decided by the model from the program
     description (= the value every object had before its first use).  After
@@ -604,9 +760,9 @@ def run_session(acc, H, i, sess):
         acc.count('session_builds')
         acc.count('session_builds/' + prog['entry'])
         viols = c.viols
-        if cleanly_rejected(viols) and any(
+        if cleanly_rejected(viols) and (has_nan(prog) or any(
                 p['default'][0] == 'invalid'
-                for f in prog['funcs'].values() for p in f['params']):
+                for f in prog['funcs'].values() for p in f['params'])):
             acc.count('odd_default_rejected_no_verdict')
             viols = []
         mutations += [(k, m) for m in pool.audit(acc)]
@@ -910,9 +1066,19 @@ def eval_prog(acc, H, i, prog, pool=None):
         acc.count('controls_of_failed_bodies',
                   sum(1 for k in lay['order']
                       if funcs[k[0]].get('body_fails')))
+    name_counters(acc, prog, lay)
     try:
         raw = bytes(sd.as_bytes())
     except Exception as e:
+        cause = e.__cause__ or e
+        if isinstance(cause, UnicodeEncodeError) and not all(
+                p['name'].isascii() for f in funcs.values()
+                for p in f['params']):
+            # a definition file holds ASCII names: no bytes, the python-side
+            # state (anchors of the property) is compared instead
+            acc.count('unicode_named_programs_refused_by_writer')
+            check_python_state(acc, viol, sd, lay)
+            return None
         viol(f'C04/as-bytes-raises/{exc_site(e)}', exception=short_tb(e))
         return None
     try:
@@ -966,6 +1132,69 @@ def eval_prog(acc, H, i, prog, pool=None):
                       layout_desc, nontriv, i)
 
 
+def name_counters(acc, prog, lay):
+    """which hostile name classes the built definition declares"""
+    funcs = prog['funcs']
+    if prog.get('hostile_names'):
+        acc.count('programs_with_hostile_names')
+    names = set()
+    for (fname, pname), s in lay['slots'].items():
+        names.add(pname)
+        nc = G.name_class(pname)
+        if not nc:
+            continue
+        acc.count('controls_named/' + nc)
+        if pname[:2] in ('a_', 'i_', 't_', 'k_'):
+            f = funcs[fname]
+            p = f['params'][f['prepend'] + s.decl]
+            rates = f['rates'] or []
+            e = rates[s.decl] if s.decl < len(rates) else None
+            if p['annot'] is None and not isinstance(e, str):
+                acc.count('prefix_named_controls_without_annotation_or_rate')
+                acc.count('prefix_named_controls_without_annotation_or_rate/'
+                          + pname[:2])
+                if any(s.lags):
+                    acc.count('prefix_named_controls_with_lag')
+                if fname != prog['top']:
+                    acc.count('prefix_named_controls_in_wrapped_functions')
+    if len({n.lower() for n in names}) < len(names):
+        acc.count('definitions_with_names_differing_only_in_case')
+    if not all(n.isascii() for n in names):
+        acc.count('unicode_named_programs')
+    for f in funcs.values():
+        for p in f['params'][:f['prepend']]:
+            if G.name_class(p['name']):
+                acc.count('prepended_parameters_with_hostile_names')
+
+
+def check_python_state(acc, viol, sd, lay):
+    """fallback for definitions the writer refuses for their non-ASCII
+    names: name table and default array as the SynthDef object holds them"""
+    try:
+        got = sorted((cn.name, cn.index) for cn in sd._all_control_names
+                     if cn.rate != 'noncontrol')
+        ctl = list(sd._controls)
+    except AttributeError:
+        acc.count('unicode_named_programs_state_not_readable_no_verdict')
+        return
+    slots = lay['slots']
+    exp = sorted((s.name, s.index) for s in slots.values() if s.size)
+    acc.count('python_state_name_entries_checked', len(exp))
+    if got != exp:
+        viol('C04/name-table/python-state-of-unicode-named-definition',
+             got=got, expected=exp)
+    if len(ctl) != lay['P']:
+        viol('C04/param-count', decoded=len(ctl), expected=lay['P'],
+             python_state=True)
+        return
+    try:
+        ctl = [MC.f32(v) for v in ctl]
+    except Exception:
+        viol('C04/default-value/not-a-number', python_state=repr(ctl)[:300])
+        return
+    check_defaults(acc, viol, slots, ctl, python_state=True)
+
+
 def check_decoded(acc, viol, H, d, prog_m, lay, tags, st):
     """decoded definition against one layout; -> False: give up the case"""
     slots = lay['slots']
@@ -974,15 +1203,46 @@ def check_decoded(acc, viol, H, d, prog_m, lay, tags, st):
     if len(d.params) != lay['P']:
         viol('C04/param-count', decoded=len(d.params), expected=lay['P'])
         return False
-    for key, s in slots.items():
-        n = s.name
-        for ch in range(s.size):
-            if d.params[s.index + ch] != MC.f32(s.defaults[ch]):
-                viol(f'C04/default-value/{s.rate}', name=n, channel=ch,
-                     decoded=d.params[s.index:s.index + s.size],
-                     expected=s.defaults)
-                break
+    check_defaults(acc, viol, slots, d.params)
     acc.count('default_slots_checked', lay['P'])
+    return check_decoded_rest(acc, viol, H, d, prog_m, lay, tags, st)
+
+
+def check_defaults(acc, viol, slots, params, **kw):
+    """a slot holds the float32 nearest to the declared number, bit for bit.
+    When every wrong slot of the definition was declared with a value of an
+    edge class (vf/c04_gen.value_class) the key names the class."""
+    wrong = []
+    for key, s in slots.items():
+        first = True
+        for ch in range(s.size):
+            v = s.defaults[ch]
+            vc = G.value_class(v)
+            got = params[s.index + ch]
+            if vc:
+                acc.count('edge_default_slots_checked')
+                acc.count('edge_defaults/' + vc)
+                if s.is_array:
+                    acc.count(f'edge_defaults/{vc}/in-tuple')
+                if vc == 'nan':
+                    acc.count('nan_default_held' if got != got
+                              else 'nan_default_replaced')
+            if not MC.slot_holds(got, v, s.nan_fallback):
+                wrong.append((s, ch, vc, first))
+                first = False
+    edge_only = all(vc for _, _, vc, _ in wrong)
+    for s, ch, vc, first in wrong:
+        if first:           # one report per parameter
+            viol(f'C04/default-value/{s.rate}'
+                 + (f'/{vc}-default-not-held' if edge_only else ''),
+                 name=s.name, channel=ch, declared=repr(s.defaults[ch]),
+                 decoded=params[s.index:s.index + s.size],
+                 expected=s.defaults, **kw)
+
+
+def check_decoded_rest(acc, viol, H, d, prog_m, lay, tags, st):
+    slots = lay['slots']
+    funcs = prog_m['funcs']
 
     # -- name table ------------------------------------------------------
     # one entry per declared parameter occurrence, each pointing at its own
@@ -1074,11 +1334,30 @@ def check_decoded(acc, viol, H, d, prog_m, lay, tags, st):
         viol('C04/variants/names', decoded=[v[0] for v in d.variants],
              expected=list(exp_var))
     else:
+        given = {vn: {(lay['by_name'][pn].index + k): x
+                      for pn, v in pairs.items()
+                      for k, x in enumerate(v if isinstance(v, (list, tuple))
+                                            else [v])}
+                 for vn, pairs in (prog_m.get('variants') or {}).items()}
         for vn, vals in exp_var.items():
             acc.count('variant_blocks_checked')
-            if got_var[vn] != [MC.f32(x) for x in vals]:
-                viol('C04/variants/values', variant=vn, decoded=got_var[vn],
-                     expected=vals)
+            mine = given.get(vn.split('.', 1)[1], {})
+            acc.count('edge_variant_values_checked',
+                      sum(1 for x in mine.values() if G.value_class(x)))
+            got = got_var[vn]
+            # a slot the variant does not override holds what the parameter
+            # array holds (a NaN default may have been replaced there)
+            bad = [k for k, x in enumerate(vals)
+                   if k >= len(got) or not (
+                       MC.same_f32(got[k], MC.f32(x)) or
+                       (k not in mine and MC.same_f32(got[k], d.params[k])))]
+            if bad or len(got) != len(vals):
+                cls = {G.value_class(vals[k]) if k in mine else None
+                       for k in bad}
+                what = f'/{sorted(cls)[0]}-not-held' \
+                    if bad and None not in cls else ''
+                viol('C04/variants/values' + what, variant=vn, decoded=got,
+                     expected=vals, wrong_slots=bad[:8])
                 break
 
     return True
